@@ -8,9 +8,9 @@ CONSTANTS
   BatchSet = {2}
   PathSet = {"async"}
   MaxPauses = 0
-  Kinds = {"waive", "stale", "equal", "future"}
+  Kinds = {"waive", "equal", "neg"}
   Pols = {"leader"}
-  Mut = "after_write"
+  Mut = "neg_waives"
 INVARIANTS TypeOK C16_Dense C16_Once C16_StoredAtExpected C16_AckOffset C16_RejectNotStored C16_RejectJustified C16_WaivedAccepted C16_OneWinner C16_NoneNotSilent I_Resolved I_NonOccAll I_Order I_RejectWindow
 VIEW MCView
 CHECK_DEADLOCK FALSE
